@@ -15,7 +15,7 @@ PROPS = {
     'C19': {'units': ['run19'], 'kani': K_CONTEXT},
     'C20': {'units': ['gad', 'quot', 'fri', 'periodic'], 'kani': [], 'only': {'fri': r'evaluate_polynomial|circuit_exp_by_constant|lemma_'}},
     'C07': {'units': ['fri', 'shape', 'fold', 'fchain', 'fquery', 'evpts', 'openin'], 'kani': [], 'only': {'shape': r'verify_fri_circuit'}, 'exclude': r'possible (bit shift|arithmetic)'},
-    'C05': {'units': ['chal'], 'kani': [], 'exclude': r'canonical_width'},
+    'C05': {'units': ['chal', 'coef'], 'kani': [], 'exclude': r'canonical_width', 'only': {'coef': r'select_path'}},
     'C06': {'units': ['bind', 'pchain'], 'kani': []},
     'C17': {'units': ['cache'], 'kani': []},
     'C10': {'units': ['sched', 'tracegen', 'ptrace', 'vrfy'], 'kani': []},
